@@ -85,4 +85,3 @@ func TestKnownFindingInputs(t *testing.T) {
 		}
 	}
 }
-
